@@ -283,5 +283,6 @@ pub fn run(tier: Tier, seed: u64) -> i32 {
     };
     st.merge(crate::props::c13::reuse_part(&deadline));
     st.merge(crate::props::c13::api_use_part(&deadline));
+    st.merge(crate::props::c13::edited_defaults_part(&deadline));
     finish(meta, st, started)
 }
